@@ -58,7 +58,7 @@ Definition dec_field (t : fty) (b : bytes) : res (fval * bytes) :=
   | FBytes => '(v, r) <- dec_buffer b ;; Ok (VB v, r)
   | FNodes => '(l, r) <- dec_nodes b ;; Ok (VNs l, r)
   | FHash32 => '(h, r) <- dec_fixed 32 b ;; Ok (VH h, r)
-  | FOther _ => Panic MISMATCH
+  | _ => Panic MISMATCH      (* FOther, and the oplog-only types *)
   end.
 
 (* map_encode!(buffer, f1, f2, ..): the fields one after the other *)
